@@ -175,6 +175,11 @@ func TestConcChild(t *testing.T) {
 			srv.push(headerQuery)
 			time.Sleep(100 * time.Millisecond)
 		}
+		// a loaded machine delivers late, not never: keep pushing for up to ten seconds before concluding "dropped"
+		for deadline := time.Now().Add(10 * time.Second); atomic.LoadInt64(&got) == before && atomic.LoadInt64(&closed) == 0 && time.Now().Before(deadline); {
+			srv.push(headerQuery)
+			time.Sleep(200 * time.Millisecond)
+		}
 		after := atomic.LoadInt64(&got)
 		fmt.Printf("CHILD-RESULT survived second-subscriber-events-before=%d after-first-unsubscribed=%d its-channel-closed=%v\n", before, after-before, atomic.LoadInt64(&closed) == 1)
 	case strings.HasPrefix(mode, "stress"):
@@ -259,7 +264,7 @@ func TestConcChild(t *testing.T) {
 		select {
 		case <-finished:
 			fmt.Printf("CHILD-RESULT survived subscribes=%d unsubscribes=%d subscribe-errors=%d requests-seen-by-endpoint=%d\n", atomic.LoadInt64(&nsub), atomic.LoadInt64(&nunsub), atomic.LoadInt64(&nerr), atomic.LoadInt64(&srv.subs))
-		case <-time.After(20 * time.Second):
+		case <-time.After(90 * time.Second):
 			fmt.Printf("CHILD-RESULT deadlock subscribes=%d unsubscribes=%d\n", atomic.LoadInt64(&nsub), atomic.LoadInt64(&nunsub))
 		}
 	}
@@ -271,7 +276,7 @@ func TestEngineConc(t *testing.T) {
 	p := hx.NewProto("conc")
 	defer p.Close()
 	child := func(mode string, sd uint64) string {
-		cmd := exec.Command(os.Args[0], "-test.run", "^TestConcChild$", "-test.count", "1", "-test.timeout", "120s")
+		cmd := exec.Command(os.Args[0], "-test.run", "^TestConcChild$", "-test.count", "1", "-test.timeout", "300s")
 		cmd.Env = append(os.Environ(), "VERIF_CONC_CHILD="+mode, fmt.Sprintf("VERIF_SEED=%d", sd))
 		out, err := cmd.CombinedOutput()
 		text := string(out)
